@@ -1,7 +1,8 @@
 (* C20 — export output depends only on the current models, with no residue.
    Pinned statements only: each theorem is closed by [exact] of a lemma proved in Proofs/.
-   (P) proved for every starting tree and every model list; (R) refuted on a concrete witness by computation —
-   each (R) witness is replayed on the real binary by checks/c20.py (corpus/cli/c20_*.json).
+   (P) proved for every starting tree and every model list.  The four former (R) refutations (path collision, mod.json,
+   dotted stem, sanitised directory) were repaired in /repo (350766d, 18ab122) and are positive statements now; their
+   witnesses are replayed on the real binary by checks/c20.py (corpus/cli/c20_*.json) and must pass.
    "generated files" = files with the ORM's extension (.rs for SeaORM, .py for the Python ORMs). *)
 From VV.CLI Require Import ExportTree ExportP ExportReachP DirsP.
 
@@ -47,20 +48,33 @@ Example C20_export_idempotent_nonvacuous :
   exists r1 r2, export SeaOrm ex_models ex_dirty = Ok r1 /\ export SeaOrm ex_models r1 = Ok r2 /\ same_tree r1 r2 = true.
 Proof. do 2 eexists. split; [vm_compute; reflexivity|]. split; vm_compute; reflexivity. Qed.
 
-(* (P) exactly one entity file per model, holding its rendering, placed as the model file is laid out *)
+(* (P) exactly one entity file per model, holding its rendering, placed as the model file is laid out (names sanitised);
+   a successful export implies there was no collision (fix 18ab122) *)
 Theorem C20_export_entities_exact : forall o ms t r,
-  no_collision o ms = true -> export o ms t = Ok r ->
-  forall m, In m ms -> file_at (out_path o m) r = Some (entity_content m).
+  export o ms t = Ok r ->
+  no_collision o ms = true
+  /\ forall m, In m ms -> file_at (out_path o m) r = Some (entity_content m).
 Proof. exact export_entities_exact. Qed.
 Print Assumptions C20_export_entities_exact.
 Check C20_export_entities_exact : forall o ms t r,
-  no_collision o ms = true -> export o ms t = Ok r ->
-  forall m, In m ms -> file_at (out_path o m) r = Some [LEntity (t_name (em_table m))].
+  export o ms t = Ok r ->
+  no_collision o ms = true
+  /\ forall m, In m ms -> file_at (out_path o m) r = Some [LEntity (t_name (em_table m))].
 
 Example C20_no_collision_nonvacuous :
   no_collision SeaOrm ex_models = true /\ no_collision SqlAlchemy ex_models = true
   /\ map (out_path SqlModel) ex_models = [["user.py"]; ["sub"; "deep"; "post.py"]].
 Proof. repeat split; vm_compute; reflexivity. Qed.
+
+(* (P) the collision case is an explicit refusal, decided before the directory is cleaned or written *)
+Theorem C20_export_collision_refused : forall o ms t,
+  forallb normalize_ok ms = true ->
+  (no_collision o ms = false <-> export o ms t = Err XCollision).
+Proof. exact export_collision_refused. Qed.
+Print Assumptions C20_export_collision_refused.
+Check C20_export_collision_refused : forall o ms t,
+  forallb normalize_ok ms = true ->
+  (no_collision o ms = false <-> export o ms t = Err XCollision).
 
 (* (P) no residue: every generated file left is the entity of a current model or a module index *)
 Theorem C20_export_no_residue : forall o ms t r,
@@ -94,73 +108,72 @@ Example C20_dirs_minimal_nonvacuous :
     /\ lookup ["gone"] r = Some (NDir [("mod.rs", NFile [LDecl "z"])]).
 Proof. eexists. split; [vm_compute; reflexivity|]. repeat split; vm_compute; reflexivity. Qed.
 
-(* (P) SeaORM: the `pub mod` chain reaches every entity whose module path is its file path *)
+(* (P) SeaORM: the `pub mod` chain reaches every entity (fix 350766d: chain and entity path are the same function of
+   the model path; the only side condition is that no path component is empty after sanitising) *)
 Theorem C20_mod_chain_reaches_all : forall ms t r,
   export SeaOrm ms t = Ok r ->
-  forall m, In m ms -> chain_names_ok m = true -> entity_reachable m r = true.
+  forall m, In m ms -> path_names_nonempty m = true -> entity_reachable m r = true.
 Proof. exact mod_chain_reaches_all. Qed.
 Print Assumptions C20_mod_chain_reaches_all.
 Check C20_mod_chain_reaches_all : forall ms t r,
   export SeaOrm ms t = Ok r ->
-  forall m, In m ms -> chain_names_ok m = true -> entity_reachable m r = true.
+  forall m, In m ms -> path_names_nonempty m = true -> entity_reachable m r = true.
 
 Example C20_mod_chain_nonvacuous :
-  forallb chain_names_ok ex_models = true
+  forallb path_names_nonempty ex_models = true
   /\ exists r, export SeaOrm ex_models ex_dirty = Ok r /\ forallb (fun m => entity_reachable m r) ex_models = true.
 Proof. split; [vm_compute; reflexivity|]. eexists. split; vm_compute; reflexivity. Qed.
 
-(* (R) outside [chain_names_ok]: a '.' in the file stem *)
-Theorem C20_mod_chain_dotted_stem_refuted :
+(* (P) formerly refuted: a '.' in the file stem *)
+Theorem C20_mod_chain_dotted_stem_reached :
   exists m r,
-    export SeaOrm [m] [] = Ok r /\ no_collision SeaOrm [m] = true /\ chain_names_ok m = false
-    /\ entity_reachable m r = false
-    /\ flat r = [(["a_b.rs"], KFile [LEntity "ab"]); (["mod.rs"], KFile [LDecl "a"])].
-Proof. exact mod_chain_dotted_stem_refuted. Qed.
-Print Assumptions C20_mod_chain_dotted_stem_refuted.
-Check C20_mod_chain_dotted_stem_refuted :
+    export SeaOrm [m] [] = Ok r /\ em_file m = "a.b.json"
+    /\ entity_reachable m r = true
+    /\ flat r = [(["a_b.rs"], KFile [LEntity "ab"]); (["mod.rs"], KFile [LDecl "a_b"])].
+Proof. exact mod_chain_dotted_stem_reached. Qed.
+Print Assumptions C20_mod_chain_dotted_stem_reached.
+Check C20_mod_chain_dotted_stem_reached :
   exists m r,
-    export SeaOrm [m] [] = Ok r /\ no_collision SeaOrm [m] = true /\ chain_names_ok m = false
-    /\ entity_reachable m r = false
-    /\ flat r = [(["a_b.rs"], KFile [LEntity "ab"]); (["mod.rs"], KFile [LDecl "a"])].
+    export SeaOrm [m] [] = Ok r /\ em_file m = "a.b.json"
+    /\ entity_reachable m r = true
+    /\ flat r = [(["a_b.rs"], KFile [LEntity "ab"]); (["mod.rs"], KFile [LDecl "a_b"])].
 
-(* (R) outside [chain_names_ok]: a directory name that sanitize_filename changes *)
-Theorem C20_mod_chain_spaced_dir_refuted :
+(* (P) formerly refuted: a directory name that sanitize_filename changes *)
+Theorem C20_mod_chain_spaced_dir_reached :
   exists m r,
-    export SeaOrm [m] [] = Ok r /\ no_collision SeaOrm [m] = true /\ chain_names_ok m = false
-    /\ entity_reachable m r = false
-    /\ file_at ["my dir"; "x.rs"] r = Some [LEntity "x"]
+    export SeaOrm [m] [] = Ok r /\ em_dirs m = ["my dir"]
+    /\ entity_reachable m r = true
+    /\ file_at ["my_dir"; "x.rs"] r = Some [LEntity "x"]
     /\ file_at ["my_dir"; "mod.rs"] r = Some [LDecl "x"]
-    /\ file_at ["mod.rs"] r = Some [LDecl "my_dir"].
-Proof. exact mod_chain_spaced_dir_refuted. Qed.
-Print Assumptions C20_mod_chain_spaced_dir_refuted.
-Check C20_mod_chain_spaced_dir_refuted :
+    /\ file_at ["mod.rs"] r = Some [LDecl "my_dir"]
+    /\ lookup ["my dir"] r = None.
+Proof. exact mod_chain_spaced_dir_reached. Qed.
+Print Assumptions C20_mod_chain_spaced_dir_reached.
+Check C20_mod_chain_spaced_dir_reached :
   exists m r,
-    export SeaOrm [m] [] = Ok r /\ no_collision SeaOrm [m] = true /\ chain_names_ok m = false
-    /\ entity_reachable m r = false
-    /\ file_at ["my dir"; "x.rs"] r = Some [LEntity "x"]
+    export SeaOrm [m] [] = Ok r /\ em_dirs m = ["my dir"]
+    /\ entity_reachable m r = true
+    /\ file_at ["my_dir"; "x.rs"] r = Some [LEntity "x"]
     /\ file_at ["my_dir"; "mod.rs"] r = Some [LDecl "x"]
-    /\ file_at ["mod.rs"] r = Some [LDecl "my_dir"].
+    /\ file_at ["mod.rs"] r = Some [LDecl "my_dir"]
+    /\ lookup ["my dir"] r = None.
 
-(* (R) outside [no_collision]: `a b.json` / `a_b.json` *)
-Theorem C20_export_collision_refuted :
-  exists ms r,
-    export SeaOrm ms [] = Ok r /\ List.length ms = 2%nat /\ no_collision SeaOrm ms = false
-    /\ flat r = [(["a_b.rs"], KFile [LEntity "second"]); (["mod.rs"], KFile [LDecl "a_b"])].
-Proof. exact export_collision_refuted. Qed.
-Print Assumptions C20_export_collision_refuted.
-Check C20_export_collision_refuted :
-  exists ms r,
-    export SeaOrm ms [] = Ok r /\ List.length ms = 2%nat /\ no_collision SeaOrm ms = false
-    /\ flat r = [(["a_b.rs"], KFile [LEntity "second"]); (["mod.rs"], KFile [LDecl "a_b"])].
+(* (P) formerly refuted: `a b.json` / `a_b.json` collide: refused for every ORM and every starting tree *)
+Theorem C20_export_collision_refused_witness : forall o t,
+  export o [mkEModel [] "a b.json" (tbl "first") true; mkEModel [] "a_b.json" (tbl "second") true] t = Err XCollision.
+Proof. exact export_collision_refused_witness. Qed.
+Print Assumptions C20_export_collision_refused_witness.
+Check C20_export_collision_refused_witness : forall o t,
+  export o [mkEModel [] "a b.json" (tbl "first") true; mkEModel [] "a_b.json" (tbl "second") true] t = Err XCollision.
 
-(* (R) outside [no_collision]: `mod.json` *)
-Theorem C20_export_mod_stem_refuted :
-  exists ms r,
-    export SeaOrm ms [] = Ok r /\ no_collision SeaOrm ms = false
-    /\ file_at ["mod.rs"] r = Some [LEntity "mod"; LDecl "mod"; LDecl "user"].
-Proof. exact export_mod_stem_refuted. Qed.
-Print Assumptions C20_export_mod_stem_refuted.
-Check C20_export_mod_stem_refuted :
-  exists ms r,
-    export SeaOrm ms [] = Ok r /\ no_collision SeaOrm ms = false
-    /\ file_at ["mod.rs"] r = Some [LEntity "mod"; LDecl "mod"; LDecl "user"].
+(* (P) formerly refuted: `mod.json` is refused by a SeaORM export (and harmless for the Python ORMs) *)
+Theorem C20_export_mod_stem_refused_witness :
+  (forall t, export SeaOrm [mkEModel [] "mod.json" (tbl "mod") true; mkEModel [] "user.json" (tbl "user") true] t = Err XCollision)
+  /\ exists r, export SqlAlchemy [mkEModel [] "mod.json" (tbl "mod") true; mkEModel [] "user.json" (tbl "user") true] [] = Ok r
+               /\ flat r = [(["mod.py"], KFile [LEntity "mod"]); (["user.py"], KFile [LEntity "user"])].
+Proof. exact export_mod_stem_refused_witness. Qed.
+Print Assumptions C20_export_mod_stem_refused_witness.
+Check C20_export_mod_stem_refused_witness :
+  (forall t, export SeaOrm [mkEModel [] "mod.json" (tbl "mod") true; mkEModel [] "user.json" (tbl "user") true] t = Err XCollision)
+  /\ exists r, export SqlAlchemy [mkEModel [] "mod.json" (tbl "mod") true; mkEModel [] "user.json" (tbl "user") true] [] = Ok r
+               /\ flat r = [(["mod.py"], KFile [LEntity "mod"]); (["user.py"], KFile [LEntity "user"])].
